@@ -65,6 +65,11 @@ fn next_bytes(n: usize) -> Vec<u8> {
 
 pub trait Arbitrary: Sized {
     fn any() -> Self;
+    /// Kani 0.68's concrete playback records one byte vector per array element (measured), so arrays are
+    /// drawn element by element.
+    fn any_array<const N: usize>() -> [Self; N] {
+        std::array::from_fn(|_| Self::any())
+    }
 }
 macro_rules! arb_int {
     ($($t:ty),*) => {$(
@@ -86,7 +91,7 @@ impl Arbitrary for bool {
 }
 impl<T: Arbitrary, const N: usize> Arbitrary for [T; N] {
     fn any() -> Self {
-        std::array::from_fn(|_| T::any())
+        T::any_array::<N>()
     }
 }
 
